@@ -609,6 +609,97 @@ pub fn judge_file(case: &AttrCase) -> Vec<(String, String)> {
     out
 }
 
+/// Clause (3): "the same blob is what both file formats store for the Attributes property".
+/// Three instances of one class (another map, the case's map, no attributes) are written by both
+/// codecs; the stored bytes are pulled out of the binary file by the independent decoder and out
+/// of the XML text by hand, and must equal what `Attributes::to_writer` produces for each instance.
+pub fn judge_stored_blobs(case: &AttrCase) -> Vec<(String, String)> {
+    use rbx_dom_weak::{InstanceBuilder, WeakDom};
+    let mut out = Vec::new();
+    let mut attrs = Attributes::new();
+    for (n, t, l) in &case.entries {
+        attrs.insert(n.clone(), lookup(t, l));
+    }
+    let other = Attributes::new().with("zz-other", Variant::Bool(true)).with("n", Variant::Float64(2.5));
+    let blob = |a: &Attributes| -> Vec<u8> {
+        let mut b = Vec::new();
+        let _ = a.to_writer(&mut b);
+        b
+    };
+    let want = [blob(&other), blob(&attrs), Vec::new()];
+    let ty = case.entries.first().map(|e| e.1.clone()).unwrap_or_default();
+    let lb = case.entries.first().map(|e| e.2.clone()).unwrap_or_default();
+    for order in 0..2 {
+        let mut kids = vec![
+            InstanceBuilder::new("Folder").with_name("i0").with_property("Attributes", other.clone()),
+            InstanceBuilder::new("Folder").with_name("i1").with_property("Attributes", attrs.clone()),
+            InstanceBuilder::new("Folder").with_name("i2"),
+        ];
+        let mut want_now = want.to_vec();
+        if order == 1 {
+            kids.swap(0, 1);
+            want_now.swap(0, 1);
+        }
+        let mut root = InstanceBuilder::new("DataModel");
+        for k in kids {
+            root = root.with_child(k);
+        }
+        let dom = WeakDom::new(root);
+        let roots = dom.root().children().to_vec();
+        // binary: the String-typed column AttributesSerialize as the independent decoder sees it
+        let b = crate::evidence::guarded(|| -> Option<Vec<Vec<u8>>> {
+            let mut buf = Vec::new();
+            rbx_binary::Serializer::new().compression_type(rbx_binary::CompressionType::None).serialize(&mut buf, &dom, &roots).ok()?;
+            let f = crate::specbin::decode(&buf, crate::specbin::Switches { uniqueid_impl: true, faces_impl: true, content_impl: true }).ok()?;
+            let p = f.props.iter().find(|p| p.name == "AttributesSerialize")?;
+            Some(p.values.iter().map(|w| match w {
+                crate::specbin::Wire::V(Variant::BinaryString(b)) => { let s: &[u8] = b.as_ref(); s.to_vec() }
+                _ => vec![0xde, 0xad],
+            }).collect())
+        });
+        match b {
+            Ok(Some(got)) => {
+                if got != want_now {
+                    let k = got.iter().zip(&want_now).position(|(a, b)| a != b).unwrap_or(0);
+                    out.push((format!("attr|stored-blob|binary|{}|{}", ty, lb), format!("binary file: instance {} of 3 stores {} bytes for AttributesSerialize, Attributes::to_writer gives {} bytes (order {}) [{:?}]", k, got.get(k).map(|x| x.len()).unwrap_or(0), want_now[k].len(), order, case.entries)));
+                }
+            }
+            _ => out.push((format!("attr|stored-blob|binary-unreadable|{}|{}", ty, lb), format!("could not extract the AttributesSerialize column from the binary file [{:?}]", case.entries))),
+        }
+        // XML: the BinaryString elements named AttributesSerialize, in document order
+        let x = crate::evidence::guarded(|| -> Option<Vec<Vec<u8>>> {
+            let mut buf = Vec::new();
+            rbx_xml::to_writer_default(&mut buf, &dom, &roots).ok()?;
+            let text = String::from_utf8(buf).ok()?;
+            let mut got = Vec::new();
+            for item in text.split("<Item ").skip(1) {
+                let open = "<BinaryString name=\"AttributesSerialize\">";
+                match item.find(open) {
+                    None => got.push(Vec::new()),
+                    Some(a) => {
+                        let rest = &item[a + open.len()..];
+                        let end = rest.find("</BinaryString>")?;
+                        let body: String = rest[..end].chars().filter(|c| !c.is_whitespace()).collect();
+                        let body = body.trim_start_matches("<![CDATA[").trim_end_matches("]]>").to_owned();
+                        got.push(base64::decode(body).ok()?);
+                    }
+                }
+            }
+            Some(got)
+        });
+        match x {
+            Ok(Some(got)) => {
+                if got != want_now {
+                    let k = got.iter().zip(&want_now).position(|(a, b)| a != b).unwrap_or(0);
+                    out.push((format!("attr|stored-blob|xml|{}|{}", ty, lb), format!("XML file: instance {} of 3 stores {} bytes for AttributesSerialize, Attributes::to_writer gives {} bytes (order {}) [{:?}]", k, got.get(k).map(|x| x.len()).unwrap_or(0), want_now.get(k).map(|x| x.len()).unwrap_or(0), order, case.entries)));
+                }
+            }
+            _ => out.push((format!("attr|stored-blob|xml-unreadable|{}|{}", ty, lb), format!("could not extract the AttributesSerialize elements from the XML file [{:?}]", case.entries))),
+        }
+    }
+    out
+}
+
 pub fn cases(tier: Tier) -> Vec<AttrCase> {
     let names = ["", "a", "é", "a-forty-character-attribute-name-0123456"];
     let mut all: Vec<(String, LV)> = Vec::new();
@@ -677,8 +768,9 @@ pub fn check(run: &Run) -> Value {
         out.executions += 1;
         let mut vs = judge(c);
         if c.entries.len() <= 1 {
-            out.executions += 2;
+            out.executions += 6;
             vs.extend(judge_file(c));
+            vs.extend(judge_stored_blobs(c));
         }
         out.outcome(if vs.is_empty() { "ok" } else { "violation" });
         for (k, w) in vs {
@@ -708,8 +800,10 @@ pub fn replay(case: &Value) -> Vec<(String, String)> {
     let c: AttrCase = serde_json::from_value(case.clone()).unwrap_or_else(|e| crate::evidence::machinery_failure(&format!("bad replay: {}", e)));
     let mut a = judge(&c);
     a.extend(judge_file(&c));
+    a.extend(judge_stored_blobs(&c));
     let mut b = judge(&c);
     b.extend(judge_file(&c));
+    b.extend(judge_stored_blobs(&c));
     if a != b {
         crate::evidence::machinery_failure("replay gave two different observations");
     }
